@@ -1,2 +1,71 @@
-(* C14 -- theorem statements are being added; see DESIGN.md. *)
-From HS Require Import Lib.Base.
+(* C14 -- validators and entity metadata are exposed faithfully and round-trip. *)
+From Coq Require Import String.
+From HS Require Import Lib.Base Lib.Bytes Lib.Dec Model.Etag Model.Serve Spec.Validators
+  Proofs.EtagP Proofs.ServeP Proofs.ServeProps Proofs.DecisionP Proofs.EchoP.
+
+(* Every 200, 206, 304, 412 and 416 begins with the same block of headers ... *)
+Theorem c14_validators_exposed : forall fmt_date parse_date now ent req r,
+  e_len ent < U64 -> serve_model fmt_date parse_date now ent req = Ok r ->
+  In (status r) [200; 206; 304; 412; 416] ->
+  exists rest, hdrs r = h0_of fmt_date now ent ++ rest.
+Proof. exact validators_exposed. Qed.
+
+(* ... which is: Accept-Ranges: bytes; the ETag verbatim; and with a modification time m: Date = now,
+   Last-Modified = l with l <= now, l = m truncated to the second unless that lies in the future. *)
+Theorem c14_h0_contents : forall fmt_date (parse_date : bytes -> option N) now ent,
+  In (H_ACCEPT_RANGES, bs "bytes") (h0_of fmt_date now ent) /\
+  (forall e, e_etag ent = Some e -> In (H_ETAG, e) (h0_of fmt_date now ent)) /\
+  (forall m, e_lm ent = Some m ->
+     In (H_DATE, fmt_date now) (h0_of fmt_date now ent) /\
+     exists l, In (H_LAST_MODIFIED, fmt_date l) (h0_of fmt_date now ent) /\ l <= now /\
+               (m / NS <= now -> l = m / NS) /\ (now < m / NS -> l = now)).
+Proof. exact h0_contents. Qed.
+
+(* 200 and single-range 206 without If-Range end with every header the entity supplies (multipart
+   carries them in every part, C06); 304 / 412 carry exactly the block above, 416 adds Content-Range. *)
+Theorem c14_entity_headers : forall fmt_date parse_date now ent req r,
+  e_len ent < U64 -> serve_model fmt_date parse_date now ent req = Ok r ->
+  (status r = 200 -> exists pre, hdrs r = pre ++ e_hdrs ent) /\
+  (status r = 206 -> r_if_range req = None -> values H_CONTENT_TYPE (hdrs r) <> [bs "multipart/byteranges; boundary=B"] ->
+     exists pre, hdrs r = pre ++ e_hdrs ent) /\
+  (In (status r) [304; 412] -> hdrs r = h0_of fmt_date now ent) /\
+  (status r = 416 -> hdrs r = h0_of fmt_date now ent ++ [(H_CONTENT_RANGE, bs "bytes */" ++ dec (e_len ent))]).
+Proof. exact entity_headers_policy. Qed.
+
+(* Echo histories. A client echoes any subset of what it was served -- the ETag in If-None-Match
+   (b_inm) and, if strong, in If-Match (b_im); the Last-Modified second in If-Modified-Since (b_ims)
+   and If-Unmodified-Since (b_ius), where the served Last-Modified is the entity's own second
+   (modification time not in the future: the class of the recorded known finding is excluded by
+   exactly this). Then: never 412, never 400, and 304 whenever the ETag was echoed in
+   If-None-Match or, without that, the date in If-Modified-Since. Under the stated oracle
+   hypothesis parse (fmt s) = s. *)
+Theorem c14_echo : forall fmt_date parse_date now (et : option tag) ent req r (b_inm b_im b_ims b_ius : bool),
+  e_len ent < U64 -> date_roundtrip fmt_date parse_date -> is_get_or_head req ->
+  e_etag ent = option_map render_tag et -> match et with Some t => tag_ok t | None => True end ->
+  (b_im = true -> match et with Some t => t_weak t = false | None => True end) ->
+  echo_conds fmt_date et (option_map (fun m => m / NS) (e_lm ent)) b_inm b_im b_ims b_ius req ->
+  serve_model fmt_date parse_date now ent req = Ok r ->
+  status r <> 412 /\ status r <> 400 /\
+  ((b_inm = true /\ et <> None) \/ ((b_inm = false \/ et = None) /\ b_ims = true /\ e_lm ent <> None) -> status r = 304).
+Proof. exact echo_gets_cache_friendly_answer. Qed.
+
+(* If-Range with the served strong ETag keeps the requested Range in force (so the request gets
+   the 206 the Range alone would get: C03 / C05) *)
+Theorem c14_echo_if_range : forall (t : tag) ent req, t_weak t = false ->
+  e_etag ent = Some (render_tag t) -> r_if_range req = Some (render_tag t) ->
+  if_range_gate (e_etag ent) req = (r_range req, false).
+Proof. exact echo_if_range_keeps_range. Qed.
+
+(* the known finding's class is not empty: a witness where the echoed clock-derived date fails *)
+Example c14_future_mtime_witness :
+  let m_s := 2000 in let now := 1000 in
+  let served := N.min m_s now in
+  precondition_fails None (Some m_s) None (Some served) = true /\
+  not_modified None (Some m_s) None (Some served) = false.
+Proof. exact future_mtime_echo_witness. Qed.
+
+Print Assumptions c14_validators_exposed.
+Print Assumptions c14_h0_contents.
+Print Assumptions c14_entity_headers.
+Print Assumptions c14_echo.
+Print Assumptions c14_echo_if_range.
